@@ -126,7 +126,16 @@ func (mq *MessageQueue) buildMessage(size uint64, buildMessageFn func(*Builder))
 	}
 	builder := mq.builders[len(mq.builders)-1]
 	buildMessageFn(builder)
-	return !builder.Empty()
+	if builder.Empty() {
+		// nothing was queued (e.g. the response stream was closed meanwhile):
+		// hand the reservation straight back
+		if size > 0 {
+			_ = mq.allocator.ReleaseBlockMemory(mq.p, size)
+		}
+		return false
+	}
+	builder.reserved += size
+	return true
 }
 
 func shouldBeginNewResponse(builders []*Builder, blkSize uint64) bool {
